@@ -1,8 +1,9 @@
+\* baseline, image copy with referrers: RetryOK counterexample EXPECTED (known finding C07-referrer-copy-retry)
 CONSTANTS
  Scenarios <- RefCopyQ
  MaxCrash = 1
- MarkerMode = "rewrite"
- MarkerWindow = FALSE
+ MarkerMode = "ifbad"
+ MarkerWindow = TRUE
 INIT Init
 NEXT Next
 INVARIANTS TypeOK NoStuck CrashStateOK ReturnOK RetryOK
